@@ -230,6 +230,31 @@ let handle kind a =
                | None -> "-"
                | Some ((x, t), rows_b) ->
                    show_res dec_of_n x ^ "@" ^ show_res show_vp t ^ " | " ^ rows rows_b)])
+  | "hshifts" ->
+      (* SeekBytesShiftOps.hshiftops_run: reader A = ops1, tell, history ops2 (reads and seeks);
+         reader B = mid, seek(told), the same history ops2 *)
+      let fb = bytes_of_hex a.(0) in
+      let parse_ops t = if t = "_" then [] else List.map (fun p ->
+        let t = String.sub p 1 (String.length p - 1) in
+        match p.[0] with
+        | 'r' -> Some (BRead (n_of_dec t))
+        | _ -> (match split_on ':' t with
+                | [c; u] -> (match vpos_try_from (n_of_dec c) (n_of_dec u) with
+                             | Some v -> Some (BSeek v) | None -> None)
+                | _ -> failwith "hshifts seek")) (split_on ',' t) in
+      let ops1 = parse_ops a.(1) and mid = parse_ops a.(2) and ops2 = parse_ops a.(3) in
+      if List.mem None ops1 || List.mem None mid || List.mem None ops2 then None else
+      let get = List.map (function Some o -> o | None -> assert false) in
+      let rows = function
+        | [] -> "_"
+        | rows -> String.concat " " (List.map (fun (r, t) ->
+            show_res dec_of_n r ^ "@" ^ show_res show_vp t) rows) in
+      let (((h1, tv), rows_a), b) = hshiftops_run fb (get ops1) (get mid) (get ops2) in
+      Some (String.concat " | " [rows h1; show_res show_vp tv; rows rows_a;
+              (match b with
+               | None -> "-"
+               | Some ((x, t), rows_b) ->
+                   show_res dec_of_n x ^ "@" ^ show_res show_vp t ^ " | " ^ rows rows_b)])
   | "hreloc" ->
       (* SeekBytesReloc.hreloc_run: reader B = mid, seek(v), reads; reader C over the bytes from
          the block offset on = seek((0,u)), reads; C's rows moved by the block offset *)
